@@ -121,17 +121,31 @@ func vModelReadSrvResp(in io.Reader, msg *conformancev1.ServerCompatResponse, so
 
 //verif:replace google.golang.org/protobuf/proto.Clone vModelProtoClone
 func vModelProtoClone(m proto.Message) proto.Message {
-	r, ok := m.(*conformancev1.ClientCompatRequest)
-	if !ok {
-		vAssert(false, "model limit: proto.Clone on a message other than ClientCompatRequest")
-		return m
+	switch r := m.(type) {
+	case *conformancev1.ClientCompatRequest:
+		return vCloneRequest(r)
+	case *conformancev1.TestCase:
+		c := &conformancev1.TestCase{
+			Request: vCloneRequest(r.Request), ExpandRequests: r.ExpandRequests, ExpectedResponse: r.ExpectedResponse,
+			OtherAllowedErrorCodes: r.OtherAllowedErrorCodes,
+		}
+		return c
 	}
-	c := &conformancev1.ClientCompatRequest{
+	vAssert(false, "model limit: proto.Clone on a message other than ClientCompatRequest / TestCase")
+	return m
+}
+
+func vCloneRequest(r *conformancev1.ClientCompatRequest) *conformancev1.ClientCompatRequest {
+	if r == nil {
+		return nil
+	}
+	return &conformancev1.ClientCompatRequest{
 		TestName: r.TestName, HttpVersion: r.HttpVersion, Protocol: r.Protocol, Codec: r.Codec, Compression: r.Compression,
-		StreamType: r.StreamType, UseGetHttpMethod: r.UseGetHttpMethod,
-		RequestHeaders: append([]*conformancev1.Header(nil), r.RequestHeaders...),
+		Host: r.Host, Port: r.Port, ServerTlsCert: r.ServerTlsCert, ClientTlsCreds: r.ClientTlsCreds, MessageReceiveLimit: r.MessageReceiveLimit,
+		Service: r.Service, Method: r.Method, StreamType: r.StreamType, UseGetHttpMethod: r.UseGetHttpMethod,
+		RequestHeaders: append([]*conformancev1.Header(nil), r.RequestHeaders...), RequestMessages: r.RequestMessages,
+		TimeoutMs: r.TimeoutMs, RequestDelayMs: r.RequestDelayMs, Cancel: r.Cancel, RawRequest: r.RawRequest,
 	}
-	return c
 }
 
 // ---- the client: per send, a scripted behaviour ----
